@@ -106,7 +106,7 @@ def gen_rel_malformed(rng, n=None, floats=False):
     n = rng.randint(0, 10) if n is None else n
     out = []
     pitches = rng.choice([[60], [60, 61], [60, 61, 62]])
-    chans = rng.choice([[0], [0, 1], [0, 1, 2]])
+    chans = rng.choice([[0], [0, 1], [0, 1, 2], [1, 17]])        # the message model does not restrict channels to 0..15
     sigs = rng.sample(SIGS, 2)
     keys = rng.sample(KEYS, 2)
     for _ in range(n):
